@@ -231,11 +231,16 @@ def _fire_hook(poller, log, sid):
     poller.fire = fire
 
 
-def fdset():
-    try:
-        return {int(x) for x in os.listdir('/proc/self/fd')}
-    except OSError:
-        return set()
+def fdset(limit=2048):
+    """the descriptor numbers open in this process (probed with fstat: looking must not open a descriptor itself)"""
+    out = set()
+    for n in range(limit):
+        try:
+            os.fstat(n)
+        except OSError:
+            continue
+        out.add(n)
+    return out
 
 
 def dispose_poller(poller, new_fds):
@@ -1150,6 +1155,11 @@ class C12(Prop):
         if '__harness__' in obs:
             DEGRADED.add('case dropped: ' + obs['__harness__'][:120])
             self.stats['dropped_cases'] = self.stats.get('dropped_cases', 0) + 1
+        self._ncases = getattr(self, '_ncases', 0) + 1
+        if self._ncases % 100 == 0:            # the harness itself must not leak descriptors (Select stops at 1024)
+            self.stats['open_descriptors'] = len(fdset())
+            if self.stats['open_descriptors'] > 500:
+                DEGRADED.add('harness: %d descriptors open after %d cases' % (self.stats['open_descriptors'], self._ncases))
         self.stats['degraded'] = sorted(DEGRADED)
         self._obs[key] = obs
         if '__harness__' not in obs:
@@ -1309,7 +1319,11 @@ class C12(Prop):
             server_ended = (ncloseall or s in obs['failed_send'] or
                             any(ok and op[0] == 'close' and op[1] == conn for op, ok in zip(c['ops'], obs['applied'])))
             ref = min(obs['reference'][s], len(want))
-            if not server_ended and len(got) < ref:
+            # the shadow is driven identically only while the server's output is small (a greeting): it gets each write
+            # at request time and at most 4096 bytes of it, whereas a large write fills the peer's window and changes
+            # what TCP still delivers in the other direction (seen: 330 of 470 bytes never reach the server's queue)
+            wrote = sum(op[2] for op, ok in zip(c['ops'], obs['applied']) if ok and op[0] == 'write' and op[1] == conn)
+            if not server_ended and wrote <= 1024 and len(got) < ref:
                 return ('socket %d: the peer sent %d bytes and went away; a raw reader on an identical connection still gets %d of '
                         'them, the read events carry only %d' % (s, len(want), ref, len(got)))
             touched = ncloseall or any(op[0] in ('write', 'close', 'preset') and len(op) > 1 and op[1] == conn for op in c['ops'])
